@@ -347,6 +347,12 @@ class Gen:
                 comps.append(''.join(r.choice(pool) for _ in range(r.choice([1, 3, 10, 40]))))
             elif y < 0.3:
                 comps.append(''.join(r.choice('abcdefghij') for _ in range(r.choice([100, 200, 248, 249, 250, 251, 255, 256, 260]))))
+            elif y < 0.36:
+                # ordinary names made of / ending in dots, long enough to be split across SL
+                # records so that a piece reads '.' or '..'
+                n = r.choice([0, 1, 2, 3, 120, 180, 200, 247, 248, 249, 250, 251, 252, 253, 254, 375, 376, 377, 378, 500])
+                n += r.choice([0, 0, 0, -7, -19, -33])
+                comps.append('a' * max(0, n) + r.choice(['...', '..', '.', '....', '.. ', '..a..'])[:None] if n > 0 else r.choice(['...', '....', '.a', '..a']))
             else:
                 comps.append(''.join(r.choice('abcdefghijklmnop') for _ in range(r.randint(1, 12))))
         t = '/'.join(comps)
